@@ -13,6 +13,7 @@ import (
 	"strings"
 
 	"verifharness/internal/out"
+	"verifharness/internal/rng"
 )
 
 // nlDirective is one comment as the generator wrote it.
@@ -298,6 +299,9 @@ func genNolint(tier string) []*tcase {
 		if sh.name == "rebuild" && tier != "thorough" {
 			continue
 		}
+		if tier == "thorough" {
+			pairArgs = nlArgs
+		}
 		for _, w1 := range pairArgs {
 			for _, w2 := range pairArgs {
 				add("nlPair", sh, []nlDirective{{words: w1, place: "stmt", at: sh.target}, {words: w2, place: "stmt", at: sh.target}})
@@ -315,7 +319,74 @@ func genNolint(tier string) []*tcase {
 			}
 		}
 	}
+	// seeded random files: 1..3 directives, any placement / argument list / spelling.  Files in which two
+	// different known causes (tab, trailing comment, bare + other) would meet are skipped, so that every
+	// oracle hit keeps one cause tag.
+	r := rng.FromEnv(0xC183)
+	nr := 300
+	if tier == "thorough" {
+		nr = 6000
+	}
+	for k := 0; k < nr; {
+		sh := rng.Pick(r, shapes)
+		var dirs []nlDirective
+		for i, nd := 0, 1+r.Intn(3); i < nd; i++ {
+			ws := rng.Pick(r, nlArgs)
+			switch r.Intn(4) {
+			case 0:
+				sp := rng.Pick(r, []int{spPlain, spTwoBlanks, spTabs, spNoSpace, spInnerTab})
+				if sp == spInnerTab && len(ws) < 2 {
+					sp = spPlain
+				}
+				dirs = append(dirs, nlDirective{words: ws, spell: sp, place: "hdr", at: -1})
+			case 1:
+				dirs = append(dirs, nlDirective{words: ws, place: "prevtrail", at: r.Intn(len(sh.stmts))})
+			default:
+				sp := r.Intn(nSpell)
+				if sp == spInnerTab && len(ws) == 0 {
+					sp = spPlain
+				}
+				dirs = append(dirs, nlDirective{words: ws, spell: sp, place: "stmt", at: r.Intn(len(sh.stmts))})
+			}
+		}
+		if !nlSingleCause(sh, dirs) {
+			continue
+		}
+		k++
+		add("nlRand", sh, dirs)
+	}
 	return cases
+}
+
+// nlSingleCause: at most one of the known causes is present in the file.
+func nlSingleCause(sh nlShape, dirs []nlDirective) bool {
+	causes := map[string]bool{}
+	for _, d := range dirs {
+		if d.usesTab() {
+			causes["tab"] = true
+		}
+		if d.place == "prevtrail" {
+			causes["trailing"] = true
+			if len(dirs) > 1 {
+				return false
+			}
+		}
+	}
+	for j := range sh.stmts {
+		bare, n := false, 0
+		for _, d := range dirs {
+			if d.place == "hdr" || d.place == "stmt" && d.at == j {
+				n++
+				if len(d.words) == 0 {
+					bare = true
+				}
+			}
+		}
+		if bare && n >= 2 {
+			causes["bare-with-other"] = true
+		}
+	}
+	return len(causes) <= 1
 }
 
 // oracleNolint judges one case on the CLI observation only.
